@@ -211,7 +211,7 @@ def go_tests(files, ex, out):
     structs = ex["structs"]
     for fname in sorted(ex.get("tests") or {}):
         text = ex["tests"][fname]
-        L = Lines(text)
+        L = Lines(text, "//")
         L.match(r"// Code generated by fin-protoc\. DO NOT EDIT\.")
         m = L.match(r"package (%s)?_test" % ID)
         if m:
@@ -309,7 +309,7 @@ def py_tests(files, ex, out):
     structs = ex["structs"]
     for fname in sorted(ex.get("tests") or {}):
         text = ex["tests"][fname]
-        L = Lines(text)
+        L = Lines(text, "#")
         L.match(r"# Code generated by fin-protoc\. DO NOT EDIT\.")
         if not L.match(r"import unittest", r"from (%s) import \*" % ID):
             out["issues"].append("%s: import block not recognised" % fname)
@@ -459,7 +459,7 @@ def cpp_tests(files, ex, out):
     structs = ex["structs"]
     for fname in sorted(ex.get("tests") or {}):
         text = ex["tests"][fname]
-        L = Lines(text)
+        L = Lines(text, "//")
         L.match(r"// Copyright \d{4} xinchentechnote")
         L.match(r"// Code generated by fin-protoc\. DO NOT EDIT\.")
         if not L.match(r'#include "include/(%s)\.hpp"' % ID, r"#include <gtest/gtest\.h>"):
@@ -691,7 +691,7 @@ def java_tests(files, ex, out):
     paths = java_classes(files)
     for fname in sorted(ex.get("tests") or {}):
         text = ex["tests"][fname]
-        L = Lines(text)
+        L = Lines(text, "//")
         m = L.match(r"package (.*);")
         if not m or not re.fullmatch(r"%s(\.%s)*" % (ID, ID), m[0].group(1)):
             out["issues"].append("%s: package declaration without a name" % fname)
@@ -999,7 +999,7 @@ def rust_tests(files, ex, out):
         for tm in ex["tests"][fname]:
             T = {"name": "%s::%s" % (mod, tm["mod"]), "file": fname, "packet": None, "sample": ["dflt"], "fixups": [], "issues": []}
             I = T["issues"]
-            L = Lines(tm["body"])
+            L = Lines(tm["body"], "//")
             if not L.match(r"use super::\*;", r"use bytes::BytesMut;"):
                 I.append("test module prelude not recognised")
             scope = set(defines.get(mod, set()))
